@@ -1,7 +1,7 @@
 """Canonical form of the parsed source, applied before any rule looks at it.
 
 Three rewrites that never change behaviour are undone, so that a rule sees one spelling whichever the author chose:
-  * ``if not c: A else: B``            ->  ``if c: B else: A``        (only when there is an else branch and it is not an elif)
+  * ``if not c: A else: B``            ->  ``if c: B else: A``        (only when there is an else branch)
   * ``K == x`` / ``b.y == a.x``        ->  operands of ``==`` / ``!=`` in a fixed order: constants last, ``self...`` first,
                                            otherwise by text
   * ``t = E; return t`` (adjacent; t not read by a finally block) -> ``return E``
@@ -28,8 +28,8 @@ def _pure(e):
 class _Canon(ast.NodeTransformer):
     def visit_If(self, node):
         self.generic_visit(node)
-        if node.orelse and not (len(node.orelse) == 1 and isinstance(node.orelse[0], ast.If)) \
-                and isinstance(node.test, ast.UnaryOp) and isinstance(node.test.op, ast.Not):
+        if node.orelse and isinstance(node.test, ast.UnaryOp) and isinstance(node.test.op, ast.Not):
+            # also when the else branch is a lone `if` (printed as elif): `if not c: A elif d: B` == `if c: (if d: B) else: A`
             node.test = node.test.operand
             node.body, node.orelse = node.orelse, node.body
         return node
@@ -52,6 +52,7 @@ class _Canon(ast.NodeTransformer):
     def _merge_returns(self, body):
         out = []
         i = 0
+        body = [st for j, st in enumerate(body) if not (isinstance(st, ast.Expr) and isinstance(st.value, ast.Constant) and st.value.value is not Ellipsis and not (j == 0 and isinstance(st.value.value, str)))] or body
         while i < len(body):
             st = body[i]
             nxt = body[i + 1] if i + 1 < len(body) else None
